@@ -28,6 +28,7 @@ ASSUMPTIONS = [
 REQUIRED_COUNTERS = ["exponent_real_axis", "exponent_imaginary_axis", "cumulant_checks", "conversion_roundtrips",
                      "conversion_differences", "martingale_cf", "martingale_direct_drift", "martingale_chain_drift", "models_reached_by_parameter_update"]
 MIN_NONTRIVIAL = {"quick": 30, "thorough": 300}
+THOROUGH_ROUNDS = 8      # the thorough tier runs the generators this many times (different seeds)
 SHARD_TIMEOUT = {"quick": 900, "thorough": 7200}
 
 
